@@ -549,6 +549,10 @@ func (g *genState) genStructPair(imported bool) (src, dst string, fields []Field
 	dst = fmt.Sprintf("Dst%d", g.nTypes)
 	n := 1 + g.rng.Intn(g.opt.MaxFields)
 	var pairs []FieldPair
+	if g.opt.UnreturnedErr > 0 && g.rng.Intn(3) == 0 {
+		// a member-wise copied struct pair, so that an error source can sit below the top level
+		pairs = append(pairs, FieldPair{"nested", "Inner2", "Inner1", "field"})
+	}
 	for len(pairs) < n {
 		p := pairCatalogue[g.rng.Intn(len(pairCatalogue))]
 		if g.opt.HiddenBias && g.rng.Intn(3) == 0 {
@@ -1389,11 +1393,8 @@ func renderSetup(rng *rand.Rand, c *Case, opt Options) string {
 			fmt.Fprintf(&sb, "\temb%s\n", it.Name)
 		}
 		for _, m := range it.Methods {
-			for _, l := range m.DocLines {
-				sb.WriteString("\t// " + l + "\n")
-			}
-			for _, n := range m.Notations {
-				sb.WriteString("\t// " + n + "\n")
+			for _, l := range docBlock(rng, c, m.DocLines, m.Notations) {
+				sb.WriteString(strings.TrimRight("\t// "+l, " ") + "\n")
 			}
 			sb.WriteString("\t" + m.signature() + "\n")
 		}
@@ -1421,6 +1422,19 @@ func renderSetup(rng *rand.Rand, c *Case, opt Options) string {
 		c.Features["unmarked-interface"]++
 	}
 	return sb.String()
+}
+
+// docBlock lays out a method's doc comment: the prose lines, then the notation lines — sometimes with a
+// prose line or an empty comment line between two notation lines (the notations need not be one block).
+func docBlock(rng *rand.Rand, c *Case, doc, nots []string) []string {
+	lines := append(append([]string{}, doc...), nots...)
+	if len(nots) >= 2 && rng.Intn(4) == 0 {
+		pos := len(doc) + 1 + rng.Intn(len(nots)-1)
+		ins := []string{"", "a remark between the notations."}[rng.Intn(2)]
+		lines = append(lines[:pos], append([]string{ins}, lines[pos:]...)...)
+		c.Features["prose-between-notations"]++
+	}
+	return lines
 }
 
 // FeatureList is a sorted "k=v" rendering.
@@ -1694,6 +1708,10 @@ func GenerateLayout(seed int64, index int, compound bool) *Case {
 	}
 	nIntf := 1 + pick(3)
 	names := []string{"Convergen", "Backend", "Loader"}
+	if pick(3) == 0 {
+		names[1] = "AccountStorageBackend" // a long name: whatever is derived from it (markers, positions) gets long too
+		feat("long-interface-name")
+	}
 	if nIntf > 1 && pick(2) == 0 {
 		// the file order need not be the (sorted) processing order
 		names[0], names[1] = names[1], names[0]
